@@ -151,7 +151,7 @@ def main(tier):
             x = recs[i - 1]
             scene = [[[p[0] // LS, p[1] // LS] for p in sh] for sh in x['polys']]
             key = 'inc:' + t + (':polyline' if x['mode'] == 0 else ':orthogonal')
-            if t == 'through-shape:crossing-only-at-shape-vertices' and x['mode'] == 0:
+            if t.startswith('through-shape:crossing-only-at-shape-vertices') and x['mode'] == 0:    # scene order here is the router's list, not insertion order
                 key = 'visibility:touching-shapes:segment-crosses-boundary-only-at-shape-vertices'
             if t == 'through-shape:via-two-of-its-vertices' and x['mode'] == 0:
                 key = 'visibility:segment-through-two-collinear-shape-vertices'
